@@ -4,6 +4,7 @@ package c05
 import (
 	"fmt"
 	"github.com/scrapli/scrapligo/response"
+	"regexp"
 	"strings"
 	"testing"
 	"time"
@@ -110,6 +111,21 @@ func runOne(w *sched.W, op cm.OpDef, st setting, maxChunk int, stall int, b sche
 			if c.CLI != nil {
 				o.cleanLine = c.CLI.PendingLine() == ""
 			}
+			if op.Kind == "nc" && op.Recovery && o.err != nil && stall >= 0 && st.override != 0 && b.Pre == 0 && b.Env == 0 {
+				// NETCONF: the late reply of the timed-out rpc arrives, the next rpc gets its own reply
+				c.Tr.Release()
+				o.recRan = true
+				r, err := c.D.Lock("running")
+				o.recErr = err
+				o.recRes = cm.OutNext
+				if r != nil && err == nil {
+					in, out := midRe.FindSubmatch(r.Input), midRe.FindStringSubmatch(r.Result)
+					own := fmt.Sprintf("<n>%d</n>", len(c.NC.Requests)-1)
+					if in == nil || out == nil || string(in[1]) != out[1] || !strings.Contains(r.Result, own) {
+						o.recRes = fmt.Sprintf("request %q got reply %q", r.Input, r.Result)
+					}
+				}
+			}
 			if op.Recovery && o.err != nil && stall >= 0 && o.cleanLine && st.override != 0 {
 				c.Tr.Release()
 				o.recRan = true
@@ -147,6 +163,8 @@ func runOne(w *sched.W, op cm.OpDef, st setting, maxChunk int, stall int, b sche
 	})
 	return out
 }
+
+var midRe = regexp.MustCompile(`message-id="(\d+)"`)
 
 func minDur(a, b time.Duration) time.Duration {
 	if a < b {
@@ -402,7 +420,7 @@ func scenarios(tier string) []sched.Scenario {
 				for sh := 0; sh < 16; sh++ {
 					out = append(out, scenario(op, st, 0, sched.Bounds{Pre: 1, Env: 1, Total: 2}, sh, 16))
 				}
-			case op.Recovery || st.name == "conn":
+			case op.Recovery && op.Kind == "cli" || st.name == "conn":
 				for sh := 0; sh < 8; sh++ {
 					out = append(out, scenario(op, st, 0, sched.Bounds{Pre: 1, Env: 1, Total: 1}, sh, 8))
 				}
